@@ -49,6 +49,8 @@ def replay(ctx, cases, prefixes):
 
 
 def describe(c):
+    if c["kind"] == "nest":
+        return "MCWire's Nest(%d): a text string under %d structures" % (c["depth"], c["depth"])
     if c["kind"] == "tree":
         return "tree type %d" % c["tree"]["ty"]
     if c["kind"] == "twins":
@@ -60,6 +62,8 @@ def classify(c, p):
     d = p.get("detail")
     if isinstance(d, str) and d.startswith("panic@"):
         return d.split(":")[0]
+    if c["kind"] == "nest":
+        return "nested%d" % c["depth"]
     if c["kind"] == "tree":
         return "type%d" % c["tree"]["ty"]
     if c.get("accept"):
